@@ -1,12 +1,13 @@
 import Driver.Proto
 import Dawgs.Model.C14
 /-! Model driver for C14 (suite `c14`): runs the concrete model `B` on the same op lines as the Go
-harness (`harness/c14.go`). `mode fixed` switches to the repaired `DirectionBoth` definitions. -/
+harness (`harness/c14.go`). The live definitions are the repaired `DirectionBoth` ones (`fixed = true`);
+`mode old` / suite `c14old` run the pre-789c790 definitions (for the `…_old` replays). -/
 namespace Driver.C14
 open Dawgs.C14
 
 structure St where
-  fixed : Bool := false
+  fixed : Bool := true
   am : AdjMap := {}
   csrb : CsrB := {}
   ts : TS := {}
@@ -79,6 +80,14 @@ def parseFilter (s : String) : Option (Edge → Bool) :=
 
 def tsFuel : Nat := 200000
 
+/-- the weight the tie's descent filter gives an admitted edge -/
+def edgeWeight (e : Edge) : Nat := 1 + e.id % 3
+
+def parseWFilter (s : String) : Option (Edge → Option Nat) :=
+  (parseFilter s).map (fun f => fun e => if f e then some (edgeWeight e) else none)
+
+def fmtPTerm (t : PTerm) : String := s!"{t.node}@{t.dist}*{t.weight}"
+
 def St.adjE (st : St) : String → Option (Nat → Dir → List Edge)
   | "ts" => some st.ts.adjacentEdges
   | "proj" => some st.curProj.adjacentEdges
@@ -92,11 +101,26 @@ def traverse (st : St) (bfs : Bool) (c dir md root filt : String) : String :=
     | none => "fuel-exhausted"
   | _, _, _, _, _ => "bad-op"
 
+def stateless (st : St) (c dir md root filt : String) : String :=
+  match st.adjE c, parseDir dir, md.toInt?, root.toNat?, parseWFilter filt with
+  | some adjE, some d, some md, some root, some f =>
+    match statelessBFS st.fixed (fun n => adjE n d) d f md tsFuel root with
+    | some (ts, inc) => s!"inc={inc} " ++ (if ts.isEmpty then "-" else "|".intercalate (ts.map fmtPTerm))
+    | none => "fuel-exhausted"
+  | _, _, _, _, _ => "bad-op"
+
+def St.numEdges (st : St) : String → Option Nat
+  | "am" => some st.am.numEdges
+  | "csr" => some st.csrb.build.numEdges
+  | "ts" => some st.ts.numEdges
+  | "proj" => some st.curProj.numEdges
+  | _ => none
+
 def step (st : St) (ts : List String) : St × String :=
   match ts with
   | ["graph"] => ({ fixed := st.fixed }, "ok")
   | ["mode", "fixed"] => ({ st with fixed := true }, "ok")
-  | ["mode", "current"] => ({ st with fixed := false }, "ok")
+  | ["mode", "old"] => ({ st with fixed := false }, "ok")
   | ["node", n] => match n.toNat? with
       | some n => ({ st with am := st.am.addNode n, csrb := st.csrb.addNode n, ts := st.ts.addNode n }, "ok")
       | none => (st, "bad-op")
@@ -159,6 +183,13 @@ def step (st : St) (ts : List String) : St × String :=
       | _, _ => (st, "bad-op")
   | ["tsbfs", c, d, md, root, filt] => (st, traverse st true c d md root filt)
   | ["tsdfs", c, d, md, root, filt] => (st, traverse st false c d md root filt)
+  | ["tssl", c, d, md, root, filt] => (st, stateless st c d md root filt)
+  | ["numedges", c] => match st.numEdges c with
+      | some n => (st, toString n)
+      | none => (st, "bad-op")
+  | ["dims", c, d] => match st.view c, parseDir d with
+      | some v, some d => let r := dimensions v.nodes v.numNodes (fun n => v.adj n d); (st, s!"{r.1} {r.2}")
+      | _, _ => (st, "bad-op")
   | ["zone", md, ids] => match md.toInt?, parseIds ids with
       -- WriteZoneBFSTree + BFSTreeFile.ReadEach AS THE CODE IS: ReadEach scans the raw file behind the
       -- gzip reader's buffer and therefore yields nothing for files under one 4096-byte buffer (F3).
@@ -172,10 +203,10 @@ def step (st : St) (ts : List String) : St × String :=
   | _ => (st, "bad-op")
 
 def suite : Suite := { σ := St, init := {}, step := step }
-/-- the same model started in `mode fixed` (selected by `MODEL_MODE` in lib/props/c14.py once the F2 fix is committed). -/
-def suiteFixed : Suite := { σ := St, init := { fixed := true }, step := step }
+/-- the same model started with the pre-repair definitions (selected by `VERIF_C14_MODE=old`). -/
+def suiteOld : Suite := { σ := St, init := { fixed := false }, step := step }
 
 end Driver.C14
 
 def Driver.C14.suites : List (String × Driver.Suite) :=
-  [("c14", Driver.C14.suite), ("c14fixed", Driver.C14.suiteFixed)]
+  [("c14", Driver.C14.suite), ("c14old", Driver.C14.suiteOld)]
